@@ -247,12 +247,38 @@ fn as_i128(x: &[u64; 2]) -> i128 {
 // ------------------------------------------------------------------------
 // harness bodies
 
+// n >> t for 0 <= t < 128 (constant n, symbolic t)
+fn shr256(n: &[u64; 4], t: u32) -> [u64; 4] {
+    let lo = (n[0] as u128) | ((n[1] as u128) << 64);
+    let hi = (n[2] as u128) | ((n[3] as u128) << 64);
+    let (rl, rh) = if t == 0 {
+        (lo, hi)
+    } else {
+        ((lo >> t) | (hi << (128 - t)), hi >> t)
+    };
+    [rl as u64, (rl >> 64) as u64, rh as u64, (rh >> 64) as u64]
+}
+
+const FAM_SHIFT: u64 = 0xFFFF_FFFF_FFFF_FFFF; // ktop value selecting the family below
+
 fn run_split<const M0: u64, const M1: u64, const M2: u64, const M3: u64>(ktop: u64) -> (i128, i128) {
-    let k: [u64; 4] = kani::any();
     let m = [M0, M1, M2, M3];
+    let k: [u64; 4] = if ktop == FAM_SHIFT {
+        // restricted family: k = floor(n / 2^t) + eps, 32 <= t < 96, eps < 2^16
+        // (scalars close to n/2^t: the lattice has the short vector (~2^t eps - (n mod 2^t), 2^t))
+        let t: u32 = kani::any();
+        let eps: u16 = kani::any();
+        kani::assume(t >= 32 && t < 96);
+        let mut k = shr256(&m, t);
+        k[0] = k[0].wrapping_add(eps as u64); // no carry: the low limb of n >> t is below 2^64 - 2^16 (assumed)
+        kani::assume(k[0] >= eps as u64);
+        k
+    } else {
+        kani::any()
+    };
     kani::assume(lt256(&k, &m));
-    if ktop != 0 {
-        // restricted family (quick tier): k < ktop * 2^192
+    if ktop != 0 && ktop != FAM_SHIFT {
+        // restricted family: k < ktop * 2^192
         kani::assume(k[3] < ktop);
     }
     // certificate bound: ((n >> 189)^2 capped to 63-bit coordinates
@@ -349,10 +375,12 @@ glue_harness!(verif_split_glue_long_ed25519, split_glue_long(0), st_basisconv_fu
     0x5812631A5CF5D3ED, 0x14DEF9DEA2F79CD6, 0x0000000000000000, 0x1000000000000000);
 glue_harness!(verif_split_glue_lsmall_ed25519, split_glue_long(1 << 12), st_basisconv_full, st_spec128_long,
     0x5812631A5CF5D3ED, 0x14DEF9DEA2F79CD6, 0x0000000000000000, 0x1000000000000000);
+glue_harness!(verif_split_glue_lfam_ed25519, split_glue_long(FAM_SHIFT), st_basisconv_full, st_spec128_long,
+    0x5812631A5CF5D3ED, 0x14DEF9DEA2F79CD6, 0x0000000000000000, 0x1000000000000000);
 // p256::Scalar (large-modulus path)
 glue_harness!(verif_split_glue_main_p256, split_glue_main(), st_basisconv_weak, st_spec128_short,
     0xF3B9CAC2FC632551, 0xBCE6FAADA7179E84, 0xFFFFFFFFFFFFFFFF, 0xFFFFFFFF00000000);
 glue_harness!(verif_split_glue_long_p256, split_glue_long(0), st_basisconv_full, st_spec128_long,
     0xF3B9CAC2FC632551, 0xBCE6FAADA7179E84, 0xFFFFFFFFFFFFFFFF, 0xFFFFFFFF00000000);
-glue_harness!(verif_split_glue_lsmall_p256, split_glue_long(1 << 12), st_basisconv_full, st_spec128_long,
+glue_harness!(verif_split_glue_lfam_p256, split_glue_long(FAM_SHIFT), st_basisconv_full, st_spec128_long,
     0xF3B9CAC2FC632551, 0xBCE6FAADA7179E84, 0xFFFFFFFFFFFFFFFF, 0xFFFFFFFF00000000);
